@@ -282,7 +282,9 @@ long __wrap_syscall(long nr, ...)
 ssize_t __wrap_read(int fd, void *buf, size_t n)
 {
 	if (vk_active && vk_hooks.io_pre) vk_hooks.io_pre(0, fd, n);
-	return __real_read(fd, buf, n);
+	ssize_t r = __real_read(fd, buf, n);
+	if (vk_active && vk_hooks.read_post) { int e = errno; vk_hooks.read_post(fd, buf, r); errno = e; }
+	return r;
 }
 ssize_t __wrap_write(int fd, const void *buf, size_t n)
 {
